@@ -85,6 +85,11 @@ CHECKS = {
    text='Part A: every sequence of <=4 (quick, 505k) / <=5 (thorough, 10M) status lines over the 20 keywords real gpg emits x exit status {0,1,2} through the real SystemGPGEnvironment.verify_file (scripted Popen), all sequences of <=3 also through ManifestFile.load, ManifestRecursiveLoader and gemato verify with -s/-P; acceptance iff exit 0, GOODSIG, VALIDSIG, TRUST_ marginal/fully/ultimate, no EXPKEYSIG/REVKEYSIG; monotonicity checked directly by raising each TRUST_ line. Part B (real gpg 2.2.40): 17 key/message states x 7 owner-trust values x entry points, gemato verify -K -R with -s/-P, 4 contents of the user GNUPGHOME x 3 key files with byte snapshots of the user home, and every single-byte mutation (xor 1, xor 0x20, delete, duplicate) of a signed body.',
    note='Trusted: the acceptance predicate in the harness (restating the statement), GnuPG 2.2.40. Part B checks that every keyword gpg emits is in the Part A alphabet. DONT_CARE (must-accept direction only): several signatures in one run, extra failure keywords next to a satisfied predicate, status lines out of gpg order; mutations confined to trailing whitespace.',
    ref='DESIGN.md §3 C05'),
+ 'C11': dict(level='model_checking',
+   technique='exhaustive enumeration of edit/update histories on twin replicas (incremental vs full) under an owned clock and three time zones, and of every in-flight edit point of a running update',
+   text='Replica A (always update --incremental) and replica B (always full update) of one tree created with create -t; all histories of 2 (quick) / 3 (thorough) rounds over {modify same size, modify other size, touch, replace by equal content} x 3 files x mtime class {T-1, T, T+0.5, T+1 relative to the previous TIMESTAMP}, add, delete x TZ {UTC, east, west} x flat/nested layout x whole-second / fractional scan start, with gemato.cli.datetime replaced by a controlled clock: whenever every modified file is newer than the previous TIMESTAMP or changed size the Manifests must be equal; the TIMESTAMP written never exceeds the scan start. Second family: a file edited after the k-th per-file hash of a running update, for every (k, file), must be picked up by the next incremental run.',
+   note='Trusted: the fake clock installed into gemato.cli (asserted: the TIMESTAMP written equals the fake instant), os.utime for all mtimes, refmanifest for comparison. DONT_CARE: same-size modification or added file with mtime <= previous TIMESTAMP; in-flight same-size edit within the whole second of the scan start.',
+   ref='DESIGN.md §3 C11'),
 }
 NOT_YET = {}
 
